@@ -999,12 +999,28 @@ func (e *Engine) discharge(ctx *Ctx, obls []*Obligation) []*OblResult {
 	var order []string
 	var jobs []*job
 	for _, o := range obls {
-		j := &job{o: o}
 		if _, ok := byName[o.Name]; !ok {
 			order = append(order, o.Name)
 		}
-		byName[o.Name] = append(byName[o.Name], j)
-		jobs = append(jobs, j)
+		// a goal that is a conjunction is discharged conjunct by conjunct (same path condition, smaller
+		// goals): big quantified conjunctions are where the solvers are unstable
+		var parts []Term
+		if strings.Contains(o.Goal.S, "(forall ") || strings.Contains(o.Goal.S, "(exists ") {
+			parts = splitAnd(o.Goal)
+		}
+		if o.Cover || len(parts) < 2 {
+			j := &job{o: o}
+			byName[o.Name] = append(byName[o.Name], j)
+			jobs = append(jobs, j)
+			continue
+		}
+		for _, g := range parts {
+			oc := *o
+			oc.Goal = g
+			j := &job{o: &oc}
+			byName[o.Name] = append(byName[o.Name], j)
+			jobs = append(jobs, j)
+		}
 	}
 	sem := make(chan struct{}, 14)
 	var wg sync.WaitGroup
@@ -1138,6 +1154,66 @@ func (e *Engine) discharge(ctx *Ctx, obls []*Obligation) []*OblResult {
 		out = append(out, agg)
 	}
 	return out
+}
+
+// splitAnd returns the top-level conjuncts of an SMT term of the form (and a b ...), recursively; any
+// other term is returned as it is.
+func splitAnd(t Term) []Term {
+	s := strings.TrimSpace(t.S)
+	if !strings.HasPrefix(s, "(and ") || !strings.HasSuffix(s, ")") {
+		return []Term{t}
+	}
+	body := s[5 : len(s)-1]
+	var parts []Term
+	depth, start := 0, -1
+	inBar := false
+	flush := func(end int) {
+		if start >= 0 {
+			parts = append(parts, splitAnd(Term{body[start:end], SBool})...)
+			start = -1
+		}
+	}
+	for i := 0; i < len(body); i++ {
+		c := body[i]
+		if c == '|' {
+			inBar = !inBar
+			if start < 0 {
+				start = i
+			}
+			continue
+		}
+		if inBar {
+			continue
+		}
+		switch {
+		case c == '(':
+			if depth == 0 && start < 0 {
+				start = i
+			}
+			depth++
+		case c == ')':
+			depth--
+			if depth == 0 {
+				flush(i + 1)
+			}
+		case c == ' ' || c == '\n' || c == '\t':
+			if depth == 0 {
+				flush(i)
+			}
+		default:
+			if depth == 0 && start < 0 {
+				start = i
+			}
+		}
+	}
+	if depth != 0 || inBar {
+		return []Term{t}
+	}
+	flush(len(body))
+	if len(parts) < 2 {
+		return []Term{t}
+	}
+	return parts
 }
 
 type axiomText struct {
